@@ -260,7 +260,7 @@ def generate(ctx):
             cases.append(dict(impl="py", n=n, sched=s))
     all3 = W.enum_maximal(prog, 3)
     ctx.extra["model_maximal_schedules_py"] = {"1": len(W.enum_maximal(prog, 1)), "2": len(W.enum_maximal(prog, 2)),
-                                               "3": len(all3)}
+                                               "3": len(all3) if len(all3) < W.ENUM_CAP else ">= %d (capped)" % W.ENUM_CAP}
     if ctx.thorough or ctx.tier_search == "thorough":
         pick = all3
         ctx.extra["py_3_threads"] = "all %d maximal schedules" % len(all3)
